@@ -263,13 +263,37 @@ PROPS["C20"] = {
            "thorough": [{"dir": "mc", "module": "MC_Uniform.tla", "cfg": "MC_Uniform_t.cfg", "workers": 8, "timeout": 3000}]},
 }
 
+def alg(module, cfg, **kw):
+    d = {"dir": "alg", "module": module, "cfg": cfg, "workers": 6, "xmx": "8g", "timeout": 3000}
+    d.update(kw)
+    return d
+
+
+PROPS["C03"]["mc"] = {
+    "quick": [alg("KnuthD.tla", "KnuthD_4_2.cfg")],
+    "thorough": [alg("KnuthD.tla", "KnuthD_4_2.cfg"), alg("KnuthD.tla", "KnuthD_2_4.cfg"), alg("KnuthD.tla", "KnuthD_3_3.cfg", workers=10),
+                 alg("KnuthD.tla", "KnuthD_probe_corr1.cfg", expect_violation="NoCorr1"), alg("KnuthD.tla", "KnuthD_probe_corr2.cfg", expect_violation="NoCorr2"),
+                 alg("KnuthD.tla", "KnuthD_probe_capped.cfg", expect_violation="NoCapped"), alg("KnuthD.tla", "KnuthD_probe_addback.cfg", expect_violation="NoAddBack")],
+}
+DIGIT_Q = [alg("MC_DigitAlgs.tla", "MC_DigitAlgs_2_3.cfg"), alg("MC_DigitAlgs.tla", "MC_DigitAlgs_3_2.cfg")]
+DIGIT_T = DIGIT_Q + [alg("MC_DigitAlgs.tla", "MC_DigitAlgs_1_5.cfg"), alg("MC_DigitAlgs.tla", "MC_DigitAlgs_2_4.cfg", workers=10), alg("MC_DigitAlgs.tla", "MC_DigitAlgs_4_2.cfg", workers=10)]
+for _p in ("C01", "C02", "C06", "C07"):
+    PROPS[_p]["mc"] = {"quick": list(DIGIT_Q), "thorough": list(DIGIT_T)}
+# the pinned tree's rotation amount mask (n & (BITS-1)) is refuted at a non-power-of-two width and holds at a power of two
+PROPS["C05"]["mc"] = {
+    "quick": DIGIT_Q + [alg("MC_DigitAlgs.tla", "MC_DigitAlgs_mask_2_3.cfg", expect_violation="RotMaskOK")],
+    "thorough": DIGIT_T + [alg("MC_DigitAlgs.tla", "MC_DigitAlgs_mask_2_3.cfg", expect_violation="RotMaskOK"), alg("MC_DigitAlgs.tla", "MC_DigitAlgs_mask_2_4.cfg")],
+}
+L2MC = {"dir": "mc", "module": "MC_L2.tla", "cfg": "MC_L2_b4.cfg", "workers": 6, "timeout": 3000}
+
 # model-checking configurations every check runs: the L1 big-number layer underlies every oracle
 COMMON_MC = {
     "quick": [{"dir": "mc", "module": "MC_Fast.tla", "cfg": "MC_Fast_b4.cfg", "workers": 4}],
     "thorough": [{"dir": "mc", "module": "MC_Fast.tla", "cfg": "MC_Fast_b4.cfg", "workers": 4},
                  {"dir": "mc", "module": "MC_Fast.tla", "cfg": "MC_Fast_b256q.cfg", "workers": 4},
                  {"dir": "mc", "module": "MC_L1.tla", "cfg": "MC_L1_b4.cfg", "workers": 4},
-                 {"dir": "mc", "module": "MC_L1.tla", "cfg": "MC_L1_b256.cfg", "workers": 4}],
+                 {"dir": "mc", "module": "MC_L1.tla", "cfg": "MC_L1_b256.cfg", "workers": 4},
+                 L2MC, dict(L2MC, cfg="MC_L2_b16.cfg"), dict(L2MC, cfg="MC_L2_b2.cfg")],
 }
 
 KNOWN_PREDICATES = {}
